@@ -389,6 +389,13 @@ def gen_part(rng, boundary: str, subtype: str, depth: int, *, allow_nested=True,
         # RFC 2046 makes the composer choose a boundary that does not occur, so such parts get base64 on top
         if enc in ("gzip", "deflate") and cte != "base64" and any(len(x) < 8 for x in (boundary,) + tuple(outer)):
             cte = "base64"
+        # incompressible content goes into deflate *stored* blocks verbatim: a "--boundary" inside the plain content is then
+        # on the wire as it is, and the 4 length bytes of a block header in front of it can happen to be CR LF
+        # (thorough tier, VERIF_SEED=1).  Same remedy: such parts get base64 on top.
+        if enc in ("gzip", "deflate") and cte != "base64" and isinstance(pp.get("content"), (bytes, bytearray)) and any(
+            (b"--" + (x.encode() if isinstance(x, str) else x)) in pp["content"] for x in (boundary,) + tuple(outer)
+        ):
+            cte = "base64"
         pp["cte"], pp["enc"] = cte, enc
         if cte is None and enc is None and kind != "agen" and rng.random() < 0.35:
             pp["drop_cl"] = True  # forces the boundary-scanning read path for an identity part
